@@ -361,8 +361,8 @@ class FakeConn(object):
 
 def fake_client(addr, *a, **kw):
     w = WORLD[0]
-    if w.lf:
-        raise ConnectionRefusedError('no listener')
+    if w.lf is True or (w.lf == 'once' and w.servers and w.last_server is w.servers[0]):
+        raise ConnectionRefusedError('no listener')    # 'once': only the FIRST process launched never listens
     return FakeConn(w, w.last_server)
 
 
@@ -707,6 +707,20 @@ def oracle(workload, lf, w):
     if w.stuck:
         bad.append('deadlock: threads %s can never run' % w.stuck)
         return bad
+    if lf == 'once':
+        # the first launch (whoever makes it: the background starter or a caller) fails, every later one succeeds: the failure may
+        # surface in the thread that made it; after it exactly one more process is launched, however many callers were waiting
+        if s['popen'] > 2:
+            bad.append('%d servers launched after the first launch failed, expected exactly 1 (callers waiting for the failed '
+                       'background start each launched their own)' % (s['popen'] - 1))
+        for i, lt in enumerate(w.threads):
+            if lt.kind == 'worker' and lt.result == 'returned' and lt.answered != ncalls[i]:
+                bad.append('thread %d: %d of %d calls answered' % (i, lt.answered, ncalls[i]))
+        if s['lock'] is not None:
+            bad.append('prepare_lock still held at the end')
+        if s['pthread']:
+            bad.append('prepare_thread still set at the end')
+        return bad
     if lf:
         # launch failure must surface in every caller that needed the server and leave the object usable
         for i, lt in enumerate(w.threads):
@@ -757,6 +771,8 @@ W3_THOROUGH = [[['prepare', 'call'], ['prepare', 'call'], ['call']], [['prepare'
                [['prepare', 'call'], ['prepare', 'call'], ['prepare', 'call']]]
 W3_CLOSE_RACE = [[['prepare'], ['call'], ['close']], [['call'], ['call'], ['close']]]
 W_LF = [[['call']], [['prepare', 'call']], [['prepare'], ['call']], [['call'], ['call']]]
+# only the first launch fails: callers waiting for a failed background start (found missing by seeded change C16-5)
+W_LF_ONCE = [[['prepare'], ['call'], ['call']], [['prepare', 'call'], ['call']], [['call'], ['call']], [['prepare'], ['call']]]
 
 
 def model_schedules(workload, variant, mode, limit, lf=False):
@@ -1214,6 +1230,9 @@ def run(check):
         for w in W_LF:
             runs, exhausted = explore_real(check, ctx, st, w, True, budget, rng, nrand // 2)
             sr[json.dumps(w) + ' lf'] = {'runs': runs, 'exhausted': exhausted}
+        for w in W_LF_ONCE:
+            runs, exhausted = explore_real(check, ctx, st, w, 'once', budget, rng, nrand // 2)
+            sr[json.dumps(w) + ' lf-once'] = {'runs': runs, 'exhausted': exhausted}
     sched_s = time.time() - t0
     n_srv = server_stream(check, rng, 200 if quick else 3000)
     t1 = time.time()
@@ -1235,7 +1254,7 @@ def run(check):
     })
     for k, v in list(st.by_workload.items())[:3]:
         check.sample({'workload': json.loads(k.replace(' lf', '')), 'schedules': v['schedules']})
-    for (w, lf, s) in sorted(st.distinct)[:3]:
+    for (w, lf, s) in sorted(st.distinct, key=lambda t: (t[0], str(t[1]), t[2]))[:3]:
         check.sample({'workload': json.loads(w), 'schedule': s})
     check.assumptions += [
         'thread switches happen only between source lines of prepare/run/_threaded_run/_call/close (the GIL makes the attribute '
